@@ -243,13 +243,14 @@ def install(events, spec):
     def execute_on_mutant(self, test_cases, mutated_module, idx, mutant_count):
         calls["execute_on_mutant"] += 1
         ret = orig_exec(self, test_cases, mutated_module, idx, mutant_count)
-        if ret is None:
-            mutants.append({"idx": idx, "checked": False, "module_none": mutated_module is None})
-            return None
-        ret = list(ret)
-        mutants.append({"idx": idx, "checked": True, "n_results": len(ret), "n_tests": len(test_cases),
+        # "checked" is decided by what the mutation controller delivered, not by what the method returned
+        rec = {"idx": idx, "checked": mutated_module is not None, "returned_none": ret is None}
+        if ret is not None:
+            ret = list(ret)
+            rec.update({"n_results": len(ret), "n_tests": len(test_cases),
                         "timeout": any(r is not None and r.timeout for r in ret),
                         "aborted": sum(1 for r in ret if r is None)})
+        mutants.append(rec)
         return ret
 
     cls._execute_test_case_on_mutant = execute_on_mutant
